@@ -218,6 +218,11 @@ fn transform_submodule(
         // TypDef has generics attached: only one case
         // (c) Subtype is generic with a concretisation here
 
+        // Local generics are placeholders for concrete types, they take no arguments themselves.
+        if ident.args.iter().any(|arg| arg.binding == typ.ident) {
+            return Err(ErrorKind::InvalidTypStatement(typ.clone(), Vec::new()).into());
+        }
+
         // Get base-node for the generic type.
         let (mut node, req_args) = nodes.get(&typ.ident)
             .expect("unreachable: parse order should guarantee, that all required modules are already parsed")
@@ -235,10 +240,34 @@ fn transform_submodule(
             // The assigment of the local submodule
             let concrete_replacement_name = &typ.args[i];
 
+            // Local generics are not yet concrete, thus cannot be used as a replacement
+            if ident
+                .args
+                .iter()
+                .any(|arg| arg.binding == *concrete_replacement_name)
+            {
+                return Err(ErrorKind::GenericPassedAsTypArgument(
+                    typ.clone(),
+                    concrete_replacement_name.clone(),
+                )
+                .into());
+            }
+
             // Get the concrete type, used as a replacement
             let (concrete_replacement, replacement_deps) = nodes.get(concrete_replacement_name)
                 .expect("unreachable: parse order should guarantee, that all required modules are already parsed");
-            assert!(replacement_deps.is_empty());
+
+            // Check that the replacement does not require generics itself
+            if !replacement_deps.is_empty() {
+                return Err(ErrorKind::InvalidTypStatement(
+                    TypClause {
+                        ident: concrete_replacement_name.clone(),
+                        args: Vec::new(),
+                    },
+                    replacement_deps.clone(),
+                )
+                .into());
+            }
 
             // Ensure that the replacement conforms to all required parameters
             let interface = nodes.get(&generic_binding.bound).expect("unreachable: parse order should guarantee, that all required modules are already parsed");
